@@ -34,6 +34,7 @@ SPEC = dict(
         ("*", "_update", "value"): NUM,
         ("*", "_update_sum", "error_rate"): NUM,
         ("KSWINConfig", "__init__", "seed"): opt(INT),
+        ("ECDDWT", "_check_threshold", "control_limit"): NUM,
     },
     layouts={
         "CUSUM": _cusum_layout("CUSUMConfig"),
@@ -41,6 +42,8 @@ SPEC = dict(
         "GeometricMovingAverage": _cusum_layout("GeometricMovingAverageConfig"),
         "DDM": [("_config", obj("DDMConfig")), ("_num_instances", INT), ("drift", BOOL), ("_additional_vars.error_rate", obj("Mean")),
                 ("_additional_vars.min_error_rate", NUMX), ("_additional_vars.min_std", NUMX), ("_additional_vars.warning", BOOL)],
+        "ECDDWT": [("_config", obj("ECDDWTConfig")), ("_num_instances", INT), ("drift", BOOL), ("_additional_vars.p", obj("Mean")),
+                   ("_additional_vars.z", obj("EWMA")), ("_additional_vars.warning", BOOL), ("_lambda_div_two_minus_lambda", NUM)],
     },
     elt={"AccuracyQueue": BOOL},
     ctor_elt={("CircularMean", "CircularQueue"): NUM},
@@ -62,6 +65,7 @@ UNITS = [
     ("HDDMAConfig", "__init__"), ("HDDMWConfig", "__init__"), ("ADWINConfig", "__init__"), ("KSWINConfig", "__init__"),
     ("STEPDConfig", "__init__"),
     ("DDM", "_update"), ("DDM", "reset"),
+    ("ECDDWT", "_update"), ("ECDDWT", "reset"),
 ]
 
 # property -> equivalence files compiled against the freshly generated GSrc.v
